@@ -40,6 +40,10 @@ pub(crate) enum L {
     ResAwait(i64, usize),
     ResGet(i64, usize),
     Boundary(i64, E, Arc<L>),
+    /// (11 l mode e kid): `<ErrorBoundary>{move || if mode == 0 { Either::Left("900+l") } else { Either::Right(if e != 0
+    /// { Ok(kid) } else { Err }) }}</ErrorBoundary>`: a BRANCHING dynamic child that contains a `Result` (an Err
+    /// first built, or dropped, by a re-run of the closure)
+    Branchy(i64, E, E, Arc<L>),
 }
 
 pub(crate) fn dec(s: &Sexp) -> L {
@@ -63,6 +67,7 @@ pub(crate) fn dec(s: &Sexp) -> L {
         7 => L::ResGet(s.at(1).num(), s.at(2).num() as usize),
         9 => L::Frag(s.at(1).list().iter().map(dec).collect()),
         10 => L::Nothing,
+        11 => L::Branchy(s.at(1).num(), dec_expr(s.at(2)), dec_expr(s.at(3)), Arc::new(dec(s.at(4)))),
         _ => L::Boundary(s.at(1).num(), dec_expr(s.at(2)), Arc::new(dec(s.at(3)))),
     }
 }
@@ -228,6 +233,25 @@ pub(crate) fn mk(l: &L, cx: &Ctx) -> AnyView {
                 log(lb);
                 res.get().unwrap_or(-1).to_string()
             })
+            .into_any()
+        }
+        L::Branchy(lb, m, e, kid) => {
+            use leptos::either::Either;
+            let fb = format!("-{lb}");
+            let (lb, m, e, s) = (*lb, m.clone(), e.clone(), cx.sigs.clone());
+            let (kid, cxk) = (kid.clone(), cx.clone());
+            view! {
+                <ErrorBoundary fallback={move |_errors| fb.clone()}>
+                    {move || {
+                        log(lb);
+                        if eval(&m, &s) == 0 {
+                            Either::Left((900 + lb).to_string())
+                        } else {
+                            Either::Right(if eval(&e, &s) != 0 { Ok(mk(&kid, &cxk)) } else { Err(Boom) })
+                        }
+                    }}
+                </ErrorBoundary>
+            }
             .into_any()
         }
         L::Boundary(lb, e, kid) => {
